@@ -19,99 +19,61 @@ set_option linter.unusedSimpArgs false
 namespace Bridge.C06
 open Req.H2 Req.H2.Flow
 
+/-- Robust to the branch shape of the Go source (guard clause vs nested, De Morgan, early
+return, a value hoisted into a local, a helper inlined by gofacts): unfold both sides, split
+every `if`/`match`, let `simp_all` turn the Boolean tests into propositions and the structure
+equalities into componentwise ones, and close the arithmetic (wrap-around written out as `%`)
+with `omega`. -/
+macro "flow_bridge" : tactic =>
+  `(tactic| (repeat' (first | omega | split | simp_all)))
+
 theorem inflowMinRefresh_eq : Generated.C06Flow.inflowMinRefresh = Flow.inflowMinRefresh := rfl
 
 theorem inflow_init_eq (f : Inflow) (n : Int) :
-    Generated.C06Flow.inflow_init f n = Inflow.init f n := rfl
+    Generated.C06Flow.inflow_init f n = Inflow.init f n := by
+  unfold Generated.C06Flow.inflow_init Inflow.init
+  flow_bridge
 
 theorem inflow_add_eq (f : Inflow) (n : Int)
     (ha : 0 ≤ f.avail) (ha' : f.avail ≤ 2147483647) (hu : 0 ≤ f.unsent) (hu' : f.unsent ≤ 2147483647)
     (hn : n < 4611686018427387904) :
     Generated.C06Flow.inflow_add f n = Inflow.add f n := by
-  unfold Generated.C06Flow.inflow_add Inflow.add Flow.inflowMinRefresh Flow.maxWindow
-  by_cases hneg : n < 0
-  · simp [hneg]
-  · have h1 : wrap64 f.unsent = f.unsent := by unfold wrap64; omega
-    have h2 : wrap64 n = n := by unfold wrap64; omega
-    have h3 : wrap64 (f.unsent + n) = f.unsent + n := by unfold wrap64; omega
-    have h4 : wrap64 f.avail = f.avail := by unfold wrap64; omega
-    have h5 : wrap64 (f.unsent + n + f.avail) = f.unsent + n + f.avail := by unfold wrap64; omega
-    simp only [hneg, decide_false, h1, h2, h3, h4, h5, Bool.false_eq_true, if_false]
-    by_cases hov : f.unsent + n + f.avail > 2147483647
-    · simp [hov]
-    · have h6 : wrap32 (f.unsent + n) = f.unsent + n := by unfold wrap32; omega
-      have h7 : wrap32 (f.avail + (f.unsent + n)) = f.avail + (f.unsent + n) := by unfold wrap32; omega
-      simp only [hov, decide_false, Bool.false_eq_true, if_false, h6, h7]
-      by_cases hb : f.unsent + n < 4096 ∧ f.unsent + n < f.avail
-      · simp [hb]
-      · have : ¬ ((decide (f.unsent + n < 4096) && decide (f.unsent + n < f.avail)) = true) := by
-          simpa using hb
-        simp [hb, this]
+  unfold Generated.C06Flow.inflow_add Inflow.add Flow.inflowMinRefresh Flow.maxWindow wrap64 wrap32
+  flow_bridge
 
 theorem inflow_take_eq (f : Inflow) (n : Int)
     (ha : 0 ≤ f.avail) (ha' : f.avail ≤ 2147483647) (hn : 0 ≤ n) :
     Generated.C06Flow.inflow_take f n = Inflow.take f n := by
-  unfold Generated.C06Flow.inflow_take Inflow.take
-  have h1 : wrapU32 f.avail = f.avail := by unfold wrapU32; omega
-  rw [h1]
-  by_cases h : n > f.avail
-  · simp [h]
-  · have h2 : wrap32 n = n := by unfold wrap32; omega
-    have h3 : wrap32 (f.avail - n) = f.avail - n := by unfold wrap32; omega
-    simp [h, h2, h3]
+  unfold Generated.C06Flow.inflow_take Inflow.take wrapU32 wrap32
+  flow_bridge
 
 theorem takeInflows_eq (f1 f2 : Inflow) (n : Int)
     (ha1 : 0 ≤ f1.avail) (ha1' : f1.avail ≤ 2147483647)
     (ha2 : 0 ≤ f2.avail) (ha2' : f2.avail ≤ 2147483647) (hn : 0 ≤ n) :
     Generated.C06Flow.takeInflows f1 f2 n = Flow.takeInflows f1 f2 n := by
-  unfold Generated.C06Flow.takeInflows Flow.takeInflows
-  have h1 : wrapU32 f1.avail = f1.avail := by unfold wrapU32; omega
-  have h2 : wrapU32 f2.avail = f2.avail := by unfold wrapU32; omega
-  rw [h1, h2]
-  by_cases h : n > f1.avail ∨ n > f2.avail
-  · have : (decide (n > f1.avail) || decide (n > f2.avail)) = true := by simpa using h
-    simp [h, this]
-  · have hb : ¬ ((decide (n > f1.avail) || decide (n > f2.avail)) = true) := by simpa using h
-    have h3 : wrap32 n = n := by unfold wrap32; omega
-    have h4 : wrap32 (f1.avail - n) = f1.avail - n := by unfold wrap32; omega
-    have h5 : wrap32 (f2.avail - n) = f2.avail - n := by unfold wrap32; omega
-    simp [h, hb, h3, h4, h5]
+  unfold Generated.C06Flow.takeInflows Flow.takeInflows wrapU32 wrap32
+  flow_bridge
 
 theorem outflow_available_eq (f : Outflow) :
     Generated.C06Flow.outflow_available f = Outflow.available f := by
   unfold Generated.C06Flow.outflow_available Outflow.available
-  by_cases h : f.conn_nonnil = true ∧ f.conn_n < f.n
-  · have : (f.conn_nonnil && decide (f.conn_n < f.n)) = true := by simpa using h
-    simp [h, this]
-  · have : ¬ ((f.conn_nonnil && decide (f.conn_n < f.n)) = true) := by simpa using h
-    simp [h, this]
+  rcases f with ⟨n0, nn, cn⟩
+  cases nn <;> flow_bridge
 
 theorem outflow_take_eq (f : Outflow) (n : Int)
     (hn : 0 ≤ n) (h1 : In32 f.n) (h2 : In32 f.conn_n) :
     Generated.C06Flow.outflow_take f n = Outflow.take f n := by
+  unfold In32 at h1 h2
   unfold Generated.C06Flow.outflow_take Outflow.take
   rw [outflow_available_eq]
-  by_cases h : n > Outflow.available f
-  · simp [h]
-  · have hav : n ≤ Outflow.available f := by omega
-    unfold In32 at h1 h2
-    have hle : n ≤ f.n ∧ (f.conn_nonnil = true → n ≤ f.conn_n) := by
-      unfold Outflow.available at hav
-      by_cases hc : f.conn_nonnil = true ∧ f.conn_n < f.n
-      · rw [if_pos hc] at hav; exact ⟨by omega, fun _ => hav⟩
-      · rw [if_neg hc] at hav
-        refine ⟨hav, fun hnn => ?_⟩
-        have : ¬ f.conn_n < f.n := fun hlt => hc ⟨hnn, hlt⟩
-        omega
-    have w1 : wrap32 (f.n - n) = f.n - n := by unfold wrap32; omega
-    by_cases hc : f.conn_nonnil = true
-    · have w2 : wrap32 (f.conn_n - n) = f.conn_n - n := by
-        have := hle.2 hc; unfold wrap32; omega
-      simp [h, hc, w1, w2]
-    · simp [h, hc, w1]
+  unfold Outflow.available wrap32
+  rcases f with ⟨n0, nn, cn⟩
+  cases nn <;> flow_bridge
 
 theorem outflow_add_eq (f : Outflow) (n : Int) :
-    Generated.C06Flow.outflow_add f n = Outflow.add f n := rfl
+    Generated.C06Flow.outflow_add f n = Outflow.add f n := by
+  unfold Generated.C06Flow.outflow_add Outflow.add
+  flow_bridge
 
 /-! ### constants and seeding code -/
 
@@ -138,13 +100,13 @@ theorem newConn_literal (cfg : Cfg) :
 theorem connFlowAdvertised_eq (c : Int) :
     Generated.C06Facts.connFlowAdvertised c = Conn.connFlowAdvertised c := by
   unfold Generated.C06Facts.connFlowAdvertised Conn.connFlowAdvertised Conn.transportDefaultConnFlow
-  by_cases h : c < 1 <;> simp [h]
+  flow_bridge
 
 theorem connInflowInit_eq (c : Int) :
     Generated.C06Facts.connInflowInit c = Conn.connInflowInit c := by
   unfold Generated.C06Facts.connInflowInit Conn.connInflowInit Conn.connFlowAdvertised
     Conn.transportDefaultConnFlow
-  by_cases h : c < 1 <;> simp [h]
+  flow_bridge
 
 theorem defaultSettings_eq :
     Generated.C06Facts.defaultSettings =
@@ -159,9 +121,10 @@ theorem callerSeeds_known :
     Generated.C06Facts.callerSeeds =
         -- the repaired shape only (fixes C06-1 91478db and C06-2 241d886 are in /repo): the caller's
         -- MAX_FRAME_SIZE no longer seeds cc.maxFrameSize, its INITIAL_WINDOW_SIZE seeds the stream inflow
-        [("http2.SettingMaxHeaderListSize", "t.MaxHeaderListSize", "setting.Val"),
-         ("http2.SettingHeaderTableSize", "headerTableSize", "setting.Val"),
-         ("http2.SettingInitialWindowSize", "cc.streamInflow", "int32(setting.Val)")] := rfl
+        -- (sorted by gofacts: the order of the cases, and switch vs if-chain, mean nothing)
+        [("http2.SettingHeaderTableSize", "local", "setting.Val"),
+         ("http2.SettingInitialWindowSize", "cc.streamInflow", "int32(setting.Val)"),
+         ("http2.SettingMaxHeaderListSize", "t.MaxHeaderListSize", "setting.Val")] := rfl
 
 /-- the argument of `cs.inflow.init`: the hard-coded default (unchanged code) or the value
 seeded from the advertised SETTINGS_INITIAL_WINDOW_SIZE (fixes/C06-2), whose own default is
@@ -174,39 +137,22 @@ theorem streamInflowInit_known :
 theorem prioSeed_known :
     ∀ nx id, Generated.C06Facts.prioSeed nx id = Conn.prioSeedFixed nx id := by
   intro nx id
-  unfold Generated.C06Facts.prioSeed Conn.prioSeedFixed
-  simp only [decide_eq_true_eq]
+  unfold Generated.C06Facts.prioSeed Conn.prioSeedFixed wrapU32
+  flow_bridge
 
 theorem awaitTake_eq (a maxBytes maxFrameSize : Int)
     (ha : In32 a) (hb : 0 ≤ maxBytes) (hb' : maxBytes < 4611686018427387904)
     (hm : 0 ≤ maxFrameSize) (hm' : maxFrameSize ≤ 2147483647) :
     Generated.C06Facts.awaitTake a maxBytes maxFrameSize = Conn.awaitTake a maxBytes maxFrameSize := by
-  unfold Generated.C06Facts.awaitTake Conn.awaitTake
   unfold In32 at ha
-  have h1 : wrap64 a = a := by unfold wrap64; omega
-  have h2 : wrap32 maxFrameSize = maxFrameSize := by unfold wrap32; omega
-  by_cases h : a > maxBytes
-  · have h3 : wrap32 maxBytes = maxBytes := by unfold wrap32; omega
-    by_cases h' : maxBytes > maxFrameSize <;> simp [h, h', h1, h2, h3]
-  · by_cases h' : a > maxFrameSize <;> simp [h, h', h1, h2]
+  unfold Generated.C06Facts.awaitTake Conn.awaitTake wrap64 wrap32
+  flow_bridge
 
 theorem frameScratchBufferLen_eq (cl maxFrameSize : Int)
     (hc : -1 ≤ cl) (hc' : cl < 4611686018427387904)
     (hm : 0 ≤ maxFrameSize) (hm' : maxFrameSize < 4611686018427387904) :
     Generated.C06Facts.frameScratchBufferLen cl maxFrameSize = Conn.scratchLen cl maxFrameSize := by
-  unfold Generated.C06Facts.frameScratchBufferLen Conn.scratchLen
-  have h1 : wrap64 maxFrameSize = maxFrameSize := by unfold wrap64; omega
-  have h2 : wrap64 (cl + 1) = cl + 1 := by unfold wrap64; omega
-  have h3 : wrap64 (524288 : Int) = 524288 := by unfold wrap64; omega
-  by_cases hbig : maxFrameSize > 524288
-  · by_cases hcl : cl ≠ -1 ∧ cl + 1 < 524288
-    · by_cases hz : cl + 1 < 1 <;> simp [hbig, hcl, hz, h1, h2, h3]
-    · have hcl' : cl = -1 ∨ ¬ cl + 1 < 524288 := by omega
-      rcases hcl' with hcl' | hcl' <;> simp [hbig, hcl', h1, h2, h3]
-  · by_cases hcl : cl ≠ -1 ∧ cl + 1 < maxFrameSize
-    · by_cases hz : cl + 1 < 1 <;> simp [hbig, hcl, hz, h1, h2, h3]
-    · have hcl' : cl = -1 ∨ ¬ cl + 1 < maxFrameSize := by omega
-      by_cases hz : maxFrameSize < 1 <;>
-        rcases hcl' with hcl' | hcl' <;> simp [hbig, hcl', hz, h1, h2, h3]
+  unfold Generated.C06Facts.frameScratchBufferLen Conn.scratchLen wrap64
+  flow_bridge
 
 end Bridge.C06
